@@ -2,6 +2,8 @@
 
 pub mod build;
 pub mod common;
+pub mod parse;
+pub mod parse2;
 pub mod roundtrip;
 pub mod sizes;
 
@@ -9,12 +11,18 @@ use crate::run::{Check, Tier};
 
 pub fn check_for(id: &str, tier: Tier) -> Option<Check> {
     match id {
+        "C01" => Some(parse2::c01(tier)),
+        "C09" => Some(parse2::c09(tier)),
+        "C11" => Some(parse2::c11(tier)),
+        "C12" => Some(parse2::c12(tier)),
         "C02" => Some(roundtrip::c02(tier)),
         "C03" => Some(roundtrip::c03(tier)),
         "C04" => Some(roundtrip::c04(tier)),
         "C05" => Some(roundtrip::c05(tier)),
         "C06" => Some(sizes::c06(tier)),
         "C07" => Some(build::c07(tier)),
+        "C08" => Some(parse::c08(tier)),
+        "C18" => Some(parse::c18(tier)),
         "C14" => Some(sizes::c14(tier)),
         "C16" => Some(sizes::c16(tier)),
         "C17" => Some(sizes::c17(tier)),
